@@ -673,14 +673,23 @@ package gtab
 //@   requires parser.inv(p) && subtablePos >= 0 && subtablePos <= 2305843009213693952
 //@   ensures err == nil ==> parser.inv(p) && s != nil && is(s, *SeqContext1) && s.(*SeqContext1) != nil
 //@   ensures err == nil ==> forall g uint16 :: has(s.(*SeqContext1).Cov, g) ==> 0 <= s.(*SeqContext1).Cov[g] && s.(*SeqContext1).Cov[g] < len(s.(*SeqContext1).Rules)
+//@   ensures err == nil ==> forall i int :: forall j int :: 0 <= i && i < len(s.(*SeqContext1).Rules) && 0 <= j && j < len(s.(*SeqContext1).Rules[i]) ==> s.(*SeqContext1).Rules[i][j] != nil
 //@   ensures p.r == old(p.r) && (faults(p.r) > old(faults(p.r)) ==> err != nil)
 //@   modifies p.*, allelems(byte), rpos(p.r), faults(p.r)
 //@   loop 0
 //@     invariant parser.inv(p) && p.r == old(p.r) && faults(p.r) <= old(faults(p.r)) && res != nil && fresh(res) && fresh(res.Rules) && len(res.Rules) == len(seqRuleSetOffsets) && res.Cov != nil && fresh(res.Cov)
 //@     invariant forall g uint16 :: has(res.Cov, g) ==> 0 <= res.Cov[g] && res.Cov[g] < len(res.Rules)
+//@     invariant forall i2 int :: 0 <= i2 && i2 < len(res.Rules) ==> isnil(res.Rules[i2]) || allocated(res.Rules[i2])
+//@     invariant forall i2 int :: forall j2 int :: 0 <= i2 && i2 < len(res.Rules) && 0 <= j2 && j2 < len(res.Rules[i2]) ==> res.Rules[i2][j2] != nil
 //@   loop 1
 //@     invariant parser.inv(p) && p.r == old(p.r) && faults(p.r) <= old(faults(p.r)) && res != nil && fresh(res) && fresh(res.Rules) && len(res.Rules) == len(seqRuleSetOffsets) && res.Cov != nil && fresh(res.Cov) && base >= 0 && base <= 2305843009213759487 && fresh(res.Rules[i]) && len(res.Rules[i]) == len(seqRuleOffsets)
 //@     invariant forall g uint16 :: has(res.Cov, g) ==> 0 <= res.Cov[g] && res.Cov[g] < len(res.Rules)
+//@     invariant forall i2 int :: 0 <= i2 && i2 < len(res.Rules) && i2 != i ==> isnil(res.Rules[i2]) || (allocated(res.Rules[i2]) && ref(res.Rules[i2]) != ref(res.Rules[i]))
+//@     invariant forall i2 int :: forall j2 int :: 0 <= i2 && i2 < len(res.Rules) && i2 != i && 0 <= j2 && j2 < len(res.Rules[i2]) ==> res.Rules[i2][j2] != nil
+//@     invariant forall j2 int :: 0 <= j2 && j2 < iter ==> res.Rules[i][j2] != nil
 //@   loop 2
 //@     invariant parser.inv(p) && p.r == old(p.r) && faults(p.r) <= old(faults(p.r)) && res != nil && fresh(res) && fresh(res.Rules) && len(res.Rules) == len(seqRuleSetOffsets) && res.Cov != nil && fresh(res.Cov) && fresh(inputSequence) && len(inputSequence) == glyphCount - 1 && fresh(res.Rules[i]) && len(res.Rules[i]) == len(seqRuleOffsets) && 0 <= seqLookupCount && seqLookupCount <= 65535
 //@     invariant forall g uint16 :: has(res.Cov, g) ==> 0 <= res.Cov[g] && res.Cov[g] < len(res.Rules)
+//@     invariant forall i2 int :: 0 <= i2 && i2 < len(res.Rules) && i2 != i ==> isnil(res.Rules[i2]) || (allocated(res.Rules[i2]) && ref(res.Rules[i2]) != ref(res.Rules[i]))
+//@     invariant forall i2 int :: forall j2 int :: 0 <= i2 && i2 < len(res.Rules) && i2 != i && 0 <= j2 && j2 < len(res.Rules[i2]) ==> res.Rules[i2][j2] != nil
+//@     invariant forall j2 int :: 0 <= j2 && j2 < j ==> res.Rules[i][j2] != nil
